@@ -34,7 +34,9 @@ ALLOWED_AXIOMS = {
 }
 
 
-def sh(cmd, cwd=None, env=None, timeout=None, inp=None, stack_mb=None):
+def sh(cmd, cwd=None, env=None, timeout=None, inp=None, stack_mb=None, extra_env=None):
+    if extra_env:
+        env = dict(env if env is not None else os.environ, **extra_env)
     pre = None
     if stack_mb:
         # the extracted model recurses once per list element (non-tail-recursive stdlib functions):
@@ -261,7 +263,8 @@ def main(argv):
         open(cf, "w").write("\n".join(data) + "\n")
         rc1, out1 = sh([os.path.join(BUILD, "harness"), pid, "replay", cf], env=GOENV, timeout=3000)
         print(out1)
-        rc2, out2 = sh([os.path.join(BUILD, "ocaml", pid, "driver"), "print", cf], stack_mb=P.get("driver_stack_mb"))
+        rc2, out2 = sh([os.path.join(BUILD, "ocaml", pid, "driver"), "print", cf], stack_mb=P.get("driver_stack_mb"),
+                        extra_env=P.get("driver_env"))
         for l in out2.splitlines():
             print("MODEL " + l)
         return 1 if rc1 != 0 else 0
@@ -333,7 +336,7 @@ def main(argv):
     classes = {}
     if os.path.exists(os.path.join(BUILD, "ocaml", pid, "driver")):
         rc, mout = sh([os.path.join(BUILD, "ocaml", pid, "driver"), "check", os.path.join(rundir, "cases.txt")], timeout=3000,
-                      stack_mb=P.get("driver_stack_mb"))
+                      stack_mb=P.get("driver_stack_mb"), extra_env=P.get("driver_env"))
         summ = None
         for l in mout.splitlines():
             f = l.split("\t")
